@@ -33,7 +33,7 @@ def sched_multievent():
     return _DME
 
 
-def run_config(cfg, strategy=None):
+def run_config(cfg, strategy=None, want_choices=False):
     """cfg: dict(order=[names], att={name: [targets]}, wrong=[[u,t]...], fail={name: kind},
                 polls=[names], writes=[names], acc={name: 'init'|'start'|'never'}, exported=[names])"""
     boot()
@@ -100,11 +100,11 @@ def run_config(cfg, strategy=None):
                     trg()
                 return trigger
             start_events.get_trigger = get_trigger
+            ev(ev='start', m=name)     # logged before the poll thread exists: its events come after this one
             try:
                 Module.startModule(self, start_events)
             finally:
                 start_events.get_trigger = orig
-            ev(ev='start', m=name)
 
         def doPoll(self):
             ev(ev='poll', m=name)
@@ -210,4 +210,6 @@ def run_config(cfg, strategy=None):
         s.run()
     if not result.get('done'):
         ev(ev='crash', exc='server thread did not finish (deadlock=%s livelock=%s)' % (s.deadlock, s.livelock))
+    if want_choices:
+        return log, list(s.choices)
     return log
